@@ -96,7 +96,7 @@ Definition model_ok (c : case) : bool :=
    and "as expressible on the chain"); and the result is never more permissive than the plain
    decision whenever every `when` attribute is a known one *)
 Definition all_when_known (ps : list policy) : bool :=
-  forallb (fun p => forallb when_known (p_rules p)) ps.
+  forallb (fun p => forallb (when_known (p_ns p)) (p_rules p)) ps.
 
 Definition req_ok (o : options) (ps : list policy) (obs : list rfilter) (r : request) : bool :=
   let ps' := alias_policies (trust_domains o) ps in
